@@ -169,16 +169,45 @@ bool Parser::parseStatement(StatementSyntax*& stmt, StatementContext stmtCtx)
                     PSY_ASSERT_3(stmt->asExpressionStatement(),
                                      return false,
                                      "invalid expression-statement");
-                    if (stmt->asExpressionStatement()->expr_)
-                        stmt->asExpressionStatement()->expr_->extKwTkIdx_ = extKwTkIdx;
+                    if (stmt->asExpressionStatement()->expr_) {
+                        auto expr = stmt->asExpressionStatement()->expr_;
+                        if (expr->extKwTkIdx_ != LexedTokens::invalidIndex()) {
+                            diagReporter_.UnexpectedGNUExtensionFlag();
+                            return false;
+                        }
+                        expr->extKwTkIdx_ = extKwTkIdx;
+                    }
                     break;
 
                 case SyntaxKind::DeclarationStatement:
                     PSY_ASSERT_3(stmt->asDeclarationStatement(),
                                      return false,
                                      "invalid expression-statement");
-                    stmt->asDeclarationStatement()->decl_->extKwTkIdx_ = extKwTkIdx;
+                    if (stmt->asDeclarationStatement()->decl_) {
+                        auto decl = stmt->asDeclarationStatement()->decl_;
+                        if (decl->extKwTkIdx_ != LexedTokens::invalidIndex()) {
+                            diagReporter_.UnexpectedGNUExtensionFlag();
+                            return false;
+                        }
+                        decl->extKwTkIdx_ = extKwTkIdx;
+                    }
                     break;
+
+                case SyntaxKind::AmbiguousCallOrVariableDeclaration:
+                case SyntaxKind::AmbiguousMultiplicationOrPointerDeclaration: {
+                    // The keyword belongs to both alternatives.
+                    auto ambigStmt = stmt->asAmbiguousExpressionOrDeclarationStatement();
+                    PSY_ASSERT_3(ambigStmt
+                                    && ambigStmt->exprStmt_
+                                    && ambigStmt->exprStmt_->expr_
+                                    && ambigStmt->declStmt_
+                                    && ambigStmt->declStmt_->decl_,
+                                 return false,
+                                 "invalid ambiguous statement");
+                    ambigStmt->exprStmt_->expr_->extKwTkIdx_ = extKwTkIdx;
+                    ambigStmt->declStmt_->decl_->extKwTkIdx_ = extKwTkIdx;
+                    break;
+                }
 
                 default:
                     diagReporter_.UnexpectedGNUExtensionFlag();
